@@ -17,6 +17,7 @@ I:  dict and list hold the same objects, names unique, every object filed
 """
 import contextlib
 import io
+import os
 import itertools
 import z3
 from fractions import Fraction
@@ -242,12 +243,12 @@ def op_t2data_rename_blocks(c, T, p, o):
 
 
 def op_minc(c, T, p, o):
-    blocks = None if o.get('blocks') is None else [p.bnames[i] for i in o['blocks']]
+    blocks = None if o.get('blocks') is None else [(p.blocks[i] if o.get('as_objects') else p.bnames[i]) for i in o['blocks']]
     return dict(run=lambda: p.g.minc(list(o['fractions']), spacing=o.get('spacing', 50.),
                                      num_fracture_planes=o.get('nfp', 1), blocks=blocks),
                 klass=lambda m, group=None: 'fractions-%d' % len(o['fractions']),
                 args=lambda m: dict(fractions=list(o['fractions']), spacing=o.get('spacing', 50.),
-                                    nfp=o.get('nfp', 1), blocks=o.get('blocks')))
+                                    nfp=o.get('nfp', 1), blocks=o.get('blocks'), as_objects=bool(o.get('as_objects'))))
 
 
 def _cross_klass(p, p2):
@@ -281,6 +282,30 @@ def op_embed(c, T, p, o):
                 args=lambda m: dict(other=G.concrete_pre(m, p2), host=o['host'], sub=o['sub']))
 
 
+def op_sort_rocktypes(c, T, p, o):
+    return dict(run=lambda: p.g.sort_rocktypes(), klass=lambda m, group=None: 'any', args=lambda m: dict())
+
+
+def op_fromgeo(c, T, p, o):
+    """grid built by the real rectangular()+fromgeo() with symbolic spacings (names concrete)."""
+    ld = _load()
+    nx, ny, nz = o['dims']
+    dx = [c.real('dx%d' % i, 0, strict_lo=True) for i in range(nx)]
+    dy = [c.real('dy%d' % i, 0, strict_lo=True) for i in range(ny)]
+    dz = [c.real('dz%d' % i, 0, strict_lo=True) for i in range(nz)]
+    st = {}
+    def run():
+        geo = ld.mulgrids.mulgrid().rectangular(dx, dy, dz, atmos_type=o['atmos_type'])
+        st['g'] = T.t2grid().fromgeo(geo)
+        if o.get('then') == 'reorder':
+            g = st['g']
+            g.reorder([b.name for b in g.blocklist][::-1],
+                      [tuple(b.name for b in con.block)[::-1] for con in g.connectionlist][::-1])
+    return dict(run=run, grids=lambda: [('grid', st['g'])] if 'g' in st else [], klass=lambda m, group=None: 'atmos-%d' % o['atmos_type'],
+                args=lambda m: dict(dims=o['dims'], atmos_type=o['atmos_type'], then=o.get('then'),
+                                    dx=[num_value(m, x) for x in dx], dy=[num_value(m, x) for x in dy], dz=[num_value(m, x) for x in dz]))
+
+
 def op_check_fix(c, T, p, o):
     return dict(run=lambda: p.g.check(fix=True, silent=True), klass=lambda m, group=None: 'any', args=lambda m: dict())
 
@@ -290,7 +315,8 @@ OPS = dict(add_block=op_add_block, delete_block=op_delete_block, add_connection=
            delete_rocktype=op_delete_rocktype, rename_rocktype=op_rename_rocktype,
            clean_rocktypes=op_clean_rocktypes, demote_block=op_demote_block, reorder=op_reorder,
            rename_blocks=op_rename_blocks, t2data_rename_blocks=op_t2data_rename_blocks,
-           minc=op_minc, add=op_add, embed=op_embed, check_fix=op_check_fix)
+           minc=op_minc, add=op_add, embed=op_embed, check_fix=op_check_fix,
+           sort_rocktypes=op_sort_rocktypes, fromgeo=op_fromgeo)
 
 
 # ---------------------------------------------------------------------------
@@ -309,7 +335,7 @@ def task_step(op, sh, opt, max_paths=6000):
     ld = _load()
     T = ld.t2grids
     failures, samples, distinct = [], [], set()
-    reached = [0]
+    reached = [0]; vacuous = []
     o = dict(opt); o.setdefault('alpha', 'lower')
 
     def h(c):
@@ -325,7 +351,9 @@ def task_step(op, sh, opt, max_paths=6000):
             raised = '%s: %s' % (type(ex).__name__, repr(ex.args[0])[:80] if ex.args else '')
         if info.get('outcome') and not raised: outcome = info['outcome']()
         grids = info['grids']() if info.get('grids') else [('grid', p.g)]
-        reached[0] += 1
+        rw, _ = c.reachable()          # reachability witness: the whole path condition is satisfiable
+        if rw == 'sat': reached[0] += 1
+        else: vacuous.append('%s path condition is %s' % (outcome, rw))
         checks = []
         for tag, g in grids:
             for group, label, val in G.invariant(g):
@@ -358,6 +386,8 @@ def task_step(op, sh, opt, max_paths=6000):
                           extra=dict(distinct_obligations=len(distinct), reached=reached[0]))
     if not reached[0]:
         tr['error'] = 'vacuous: no path reached the obligations'
+    if vacuous:
+        tr['error'] = 'vacuous path(s): %s' % vacuous[:3]
     return tr
 
 
@@ -456,6 +486,7 @@ def catalogue(tier):
                 add('delete_rocktype', sh, alpha=A)
                 add('rename_rocktype', sh, alpha=A)
                 add('clean_rocktypes', sh)
+                if nr == 2 and nb <= 2: add('sort_rocktypes', sh, alpha=A)
                 if nr == 2 and nb:
                     add('add_block', sh, alpha=A, rock=0)
                 if nb >= 2 and nr:
@@ -474,6 +505,13 @@ def catalogue(tier):
     if tier != 'quick':
         add('minc', G.shape(4, [(0, 1), (2, 1), (2, 3)], nr=2), alpha=A, fractions=[0.2, 0.8], spacing=50., nfp=3, blocks=None)
         add('minc', G.shape(2, [(0, 1)], nr=1), alpha=A, fractions=[0.05, 0.1, 0.15, 0.2, 0.2, 0.3], spacing=50., nfp=3, blocks=None)
+    add('minc', G.shape(2, [(1, 0)], nr=1), alpha=A, fractions=[0.2, 0.8], spacing=50., nfp=1, blocks=[0, 1], as_objects=True)
+    # grids built from geometries (concrete names, symbolic spacings), optionally reordered with reversals
+    for at in (0, 1, 2):
+        add('fromgeo', G.shape(0, [], nr=0), dims=[2, 1, 2], atmos_type=at, then='reorder')
+    if tier != 'quick':
+        add('fromgeo', G.shape(0, [], nr=0), dims=[2, 2, 2], atmos_type=0, then=None)
+        add('fromgeo', G.shape(0, [], nr=0), dims=[3, 1, 2], atmos_type=2, then='reorder')
     # adding / embedding grids
     others = [G.shape(1, [], nr=1), G.shape(2, [(0, 1)], nr=1)]
     firsts = [G.shape(1, [], nr=1), G.shape(2, [(1, 0)], nr=2)] + ([] if tier == 'quick' else [G.shape(3, [(0, 1), (2, 1)], nr=2), G.shape(4, [(0, 1), (2, 1), (3, 0)], nr=2)])
@@ -488,6 +526,11 @@ def catalogue(tier):
 def run(tier, seed, rep):
     _load()
     tasks = catalogue(tier)
+    flt = os.environ.get('VX_TASK_FILTER')
+    if flt:
+        # development aid (mutation testing of one operation): a filtered run can never exit 0
+        tasks = [t for t in tasks if any(f in (t[1].get('op') or t[0].__name__) for f in flt.split(','))]
+        rep.harness_error('VX_TASK_FILTER=%s active: partial run of %d tasks, not a verdict' % (flt, len(tasks)))
     if seed:
         import random
         random.Random(seed).shuffle(tasks)
